@@ -1107,7 +1107,19 @@ def make_jobs(tier, seed):
     for b in range(n_seq // per):
         jobs.append({'plans': [gen_calibration_seq(
             H(seed, PROP, 'cs', b * per + i)) for i in range(per)]})
-    return jobs
+    # Proportional interleaving of the three kinds of job: when the wall
+    # budget cuts the list short (a loaded machine), every kind loses the
+    # same fraction instead of the histories losing everything to the
+    # calibrations that used to come first.
+    kinds = {}
+    for j in jobs:
+        kinds.setdefault(j['plans'][0]['kind'], []).append(j)
+    keyed = []
+    for ki, (kind, js) in enumerate(sorted(kinds.items())):
+        for i, j in enumerate(js):
+            keyed.append(((i + 0.5) / len(js), ki, i, j))
+    keyed.sort(key=lambda t: t[:3])
+    return [t[3] for t in keyed]
 
 
 def determinism_plans(seed, n):
